@@ -11,12 +11,14 @@ P = dict(
     level_text=("Differential runtime monitoring: every overload of every string_view search/compare/substr/copy/remove_* member is executed "
                 "on an exhaustively enumerated small scope (all haystack/needle pairs up to length 4-5 over {a, 0xE9, NUL} x all pos x all counts) "
                 "plus seeded random longer strings, under ASan+UBSan on exact-size heap blocks and in trap-suffix embeddings, and compared with "
-                "std::basic_string_view. Held means: no divergence and no sanitizer report on the executions listed in the evidence; it is not a proof for longer strings."),
+                "std::basic_string_view; plus (i) a unit with views longer than 2^31 / 2^32 characters (sparse 6 GiB mapping; operations that read O(1) characters) "
+                "for size arithmetic narrowed to 32 bits, and (ii) units that evaluate the members in CONSTANT EXPRESSIONS with etl and with std over all "
+                "haystacks <= 3 x needles <= 2 and compare them with each other and with etl at run time. Held means: no divergence and no sanitizer report on the executions listed in the evidence; it is not a proof for longer strings."),
     level_note="trusts libstdc++ 12 basic_string_view as oracle and gcc 12 ASan/UBSan red zones; scope bounded by the enumerated lengths/alphabet and the random sample",
     technique="runtime differential monitoring vs std::basic_string_view under ASan+UBSan (exhaustive small scope + seeded random)",
     design_ref="DESIGN.md section 4 C08",
     rule=("enumerated: every (haystack, needle) pair over the alphabet {a, 0xE9[, NUL]} up to the stated lengths x every pos in [0,len+2] "
-          "plus npos, npos-1 x every count, for every overload of every search/compare/substr/copy/remove_* member, each pair presented "
+          "plus npos, npos-1 x every count in [0,len+1] plus npos, npos-1, SIZE_MAX/2+2, for every overload of every search/compare/substr/copy/remove_* member, each pair presented "
           "twice (exact-size heap blocks; embedded in a larger buffer whose neighbours complete a false match); then seeded random "
           "longer strings. One evaluation = one etl call compared with std::basic_string_view. Distinct = distinct hash of "
           "(presentation, haystack, needle, pos, count, overload); non-trivial = haystack or needle non-empty."),
@@ -29,6 +31,18 @@ P = dict(
              flavours={"quick": ["asan-cc"], "thorough": ["asan-cc"]}, shards={"quick": 8, "thorough": 16}),
         Unit("C08_sv_char8_t", "harness/C08_sv.cpp", defs=chardefs("char8_t"),
              flavours={"quick": [], "thorough": ["asan-cc"]}, shards={"quick": 8, "thorough": 16}),
+        # views whose size does not fit in 32 bits (6 GiB reserved with MAP_NORESERVE, a few pages touched)
+        Unit("C08_huge", "harness/C08_huge.cpp", flavours={"quick": ["asan-cc", "plain-cc"], "thorough": ["asan-cc", "plain-cc", "O0-nocc"]},
+             shards={"quick": 1, "thorough": 1}),
+        # the same members in constant expressions: etl vs std, both constant-evaluated, and etl constant-evaluated vs etl at run time
+        Unit("C08_ce_char", "harness/C08_ce.cpp", defs=chardefs("char"),
+             flavours={"quick": ["plain-cc"], "thorough": ["plain-cc", "O0-cc", "asan-cc"]}, shards={"quick": 1, "thorough": 1}),
+        Unit("C08_ce_wchar_t", "harness/C08_ce.cpp", defs=chardefs("wchar_t"),
+             flavours={"quick": ["plain-cc"], "thorough": ["plain-cc", "O0-cc", "asan-cc"]}, shards={"quick": 1, "thorough": 1}),
+        Unit("C08_ce_char8_t", "harness/C08_ce.cpp", defs=chardefs("char8_t"),
+             flavours={"quick": [], "thorough": ["plain-cc", "O0-cc"]}, shards={"quick": 1, "thorough": 1}),
+        Unit("C08_ce_char16_t", "harness/C08_ce.cpp", defs=chardefs("char16_t"),
+             flavours={"quick": [], "thorough": ["plain-cc", "O0-cc"]}, shards={"quick": 1, "thorough": 1}),
     ],
     floor={"quick": 1000000, "thorough": 10000000},
     assumptions=["libstdc++ 12 std::basic_string_view is a correct reference", "gcc 12 ASan/UBSan report every out-of-block access adjacent to an exact-size heap block"],
